@@ -384,6 +384,10 @@ fn run(cmd: &str, args: &[String], seed: u64, rep: &mut Report) {
                 mutations: vec![],
             };
             cli::replay(&ctx, arg(&args, "--bin").unwrap(), &read_ndjson(arg(&args, "--in").unwrap()), seed, arg_u64(&args, "--reps", 1) as usize, &mut rep);
+            let trace = cli::take_trace();
+            if let Some(p) = arg(&args, "--out-trace") {
+                write_ndjson(p, &trace);
+            }
         }
         "exchange-behaviours" => {
             let ctx = exchange::Ctx {
